@@ -71,6 +71,32 @@ theorem l2Keep_minAge (c : Cfg) (sampled n : UInt64) (hm : c.minAge = true) :
     (l2Keep c sampled n true).toNat ≤ sampled.toNat := by
   unfold l2Keep; simp [hm]; exact applyTimeFloor_le_sampled c _ _ hm
 
+/-- `historyprunner.Migrate`: if the guard lets the migration run, `pivot - retained` did not underflow and
+the cut-off is at most `min(l1, head) - retained` (also with the min-age floor). -/
+theorem migKeep_bound (c : Cfg) (h : Nat) (hh : h < 2 ^ 64) (l1 : UInt64) (mf : Option UInt64) (k : UInt64)
+    (hk : migKeep c h l1 mf = some k) :
+    c.retained.toNat ≤ min l1.toNat h ∧ k.toNat ≤ min l1.toNat h - c.retained.toNat := by
+  unfold migKeep at hk
+  simp only at hk
+  have hp : (if l1.toNat ≤ h then l1 else UInt64.ofNat h).toNat = min l1.toNat h := by
+    split
+    · omega
+    · rw [UInt64.toNat_ofNat']; omega
+  generalize (if l1.toNat ≤ h then l1 else UInt64.ofNat h) = pivot at hk hp
+  split at hk
+  · cases hk
+  · rename_i hg
+    have h2 : c.retained ≤ pivot := by
+      simp [UInt64.lt_iff_toNat_lt, UInt64.le_iff_toNat_le] at hg ⊢; omega
+    have hs := UInt64.toNat_sub_of_le pivot c.retained h2
+    have h2' : c.retained.toNat ≤ pivot.toNat := by simpa [UInt64.le_iff_toNat_le] using h2
+    refine ⟨by omega, ?_⟩
+    split at hk
+    · split at hk
+      · simp at hk; subst hk; omega
+      · simp at hk; subst hk; rw [umin_toNat]; omega
+    · simp at hk; subst hk; omega
+
 /-- `raiseTo` never lowers the state word. -/
 theorem raiseTo_ge (st f : UInt64) (hf : f.toNat + 1 < 2 ^ 64) : st.toNat ≤ (raiseTo st f).toNat := by
   unfold raiseTo
